@@ -477,10 +477,43 @@ def _check_neg_history(res):
     res.sample(dict(kind="neghist", how=["copy(param=)", "shared-data-dict", "neg-twice", "param-reassigned"]))
 
 
+def _check_subclass(res):
+    """the algebra on instances of a user's subclass of Equilibrium (no behaviour changed): the results have the same net
+    stoichiometry / constant as for plain equilibria, and compare equal (==, in, both ways round) to the equilibrium they are"""
+    from chempy import Equilibrium
+
+    class MyEquilibrium(Equilibrium):
+        pass
+
+    for i, (r, p) in enumerate(BASE):
+        for j, (r2, p2) in enumerate(BASE):
+            if i == j:
+                continue
+            res.states += 1
+            res.transitions += 6
+            res.evaluations += 6
+            res.nontrivial += 1
+            e, f = MyEquilibrium(r, p, Fr(3, 7)), MyEquilibrium(r2, p2, Fr(5, 2))
+            pe, pf = Equilibrium(r, p, Fr(3, 7)), Equilibrium(r2, p2, Fr(5, 2))
+            tests = [("1*e == e", lambda: 1 * e == e), ("e == 1*e", lambda: e == 1 * e), ("-(-e) == e", lambda: -(-e) == e), ("(e + f) - f == (plain + plain) - plain", lambda: (e + f) - f == (pe + pf) - pf),
+                     ("e in [1*e]", lambda: e in [1 * e]), ("2*e == 2*plain", lambda: 2 * e == 2 * pe), ("e - f == plain - plain", lambda: e - f == pe - pf),
+                     ("not (1*e != e)", lambda: not (1 * e != e)), ("e != f", lambda: e != f and not (e == f))]
+            for label, t in tests:
+                try:
+                    got = bool(t())
+                except Exception as ex:
+                    got = "EXC %s" % type(ex).__name__
+                res.outcomes["subclass-ok" if got is True else "SUBCLASS-wrong"] += 1
+                if got is not True:
+                    res.violation("C11|subclass-instances|%s" % label, "with e, f instances of a subclass of Equilibrium (b%d, b%d): %s is %r" % (i, j, label, got), dict(kind="subclass", i=i, j=j, label=label), got, True)
+    res.sample(dict(kind="subclass", tests=9))
+
+
 def run_chunk(chunk, tier):
     res = Result()
     if chunk[0] == "NEGH":
         _check_neg_history(res)
+        _check_subclass(res)
     elif chunk[0] == "BFS":
         _bfs(res, chunk[1], chunk[2], chunk[3])
     elif chunk[0] == "ELIM":
@@ -514,6 +547,10 @@ def replay(case):
         _check_elim(res, case["a"], case["b"], case["shape"], case["order"])
     elif k == "neghist":
         sub = run_chunk(("NEGH",), "quick")
+        res.violations = [v for v in sub.violations if v["case"] == case]
+    elif k == "subclass":
+        sub = Result()
+        _check_subclass(sub)
         res.violations = [v for v in sub.violations if v["case"] == case]
     elif k == "cancel":
         sub = run_chunk(("CANCEL",), "quick")
